@@ -151,7 +151,8 @@ def rule_scan(ctx):
     site = fi.qual
     # line variable of the scan: while <line>: ... / for line in f
     if isinstance(scan, ast.While):
-        linevar = scan.test.id if isinstance(scan.test, ast.Name) else None
+        linevar = scan.test.id if isinstance(scan.test, ast.Name) else (
+            scan.test.target.id if isinstance(scan.test, ast.NamedExpr) and isinstance(scan.test.target, ast.Name) else None)
     else:
         linevar = scan.target.id if isinstance(scan.target, ast.Name) else (
             scan.target.elts[-1].id if isinstance(scan.target, ast.Tuple) else None)
@@ -165,7 +166,8 @@ def rule_scan(ctx):
                 continue
             n_read += 1
             par = getattr(sub, "_parent", None)
-            ok = isinstance(par, ast.Assign) and len(par.targets) == 1 and isinstance(par.targets[0], ast.Name) and par.targets[0].id == linevar
+            ok = (isinstance(par, ast.Assign) and len(par.targets) == 1 and isinstance(par.targets[0], ast.Name) and par.targets[0].id == linevar) or (
+                isinstance(par, ast.NamedExpr) and isinstance(par.target, ast.Name) and par.target.id == linevar)
             ctx.check(ok, "SEC.SCAN", "%s#read:%d" % (site, n_read), fi, sub,
                       "line read by %s is assigned to the scanned variable `%s`" % (unparse(sub), linevar),
                       "%s reads a line that is never tested for being a section title: sections after it are not found "
@@ -358,10 +360,17 @@ def _consumer_loops(p):
     # reference engine: nested generator
     fe = p.func("reader.read_data_section_iterative_normal_engine")
     found = False
-    for nm, nf in fe.nested.items():
+    # candidates: the nested generator, or a module-level (generator) function of the module that the engine calls
+    called = {c.func.id for c in ast.walk(fe.node) if isinstance(c, ast.Call) and isinstance(c.func, ast.Name)}
+    cands = list(fe.nested.items()) + [(nm, mf) for nm, mf in fe.module.functions.items() if nm in called and mf is not fe
+                                       and any(isinstance(y, (ast.Yield, ast.YieldFrom)) for y in ast.walk(mf.node))]
+    for nm, nf in cands:
         if isinstance(nf.node, ast.Lambda):
             continue
-        fparam = _file_param(nf)
+        try:
+            fparam = _file_param(nf)
+        except AnalysisError:
+            continue
         loops = _loop_over_file(nf, fparam)
         if loops:
             loop, counter, linevar, direct, start = loops[0]
@@ -831,11 +840,18 @@ def rule_steer(ctx):
         for nid in cfg.nodes_for(st):
             for (tn, lab) in cd.transitive(nid):
                 if cfg.nodes[tn].kind == "test":
-                    t = cfg.nodes[tn].ast
-                    free = {n.id for n in ast.walk(t) if isinstance(n, ast.Name)}
+                    t0 = cfg.nodes[tn].ast
+                    pol = lab.startswith("true")
+                    # a conjunction taken on its true branch (a disjunction on its false branch) constrains every operand
+                    if isinstance(t0, ast.BoolOp) and ((isinstance(t0.op, ast.And) and pol) or (isinstance(t0.op, ast.Or) and not pol)):
+                        parts = list(t0.values)
+                    else:
+                        parts = [t0]
                     tder = {k for k, v in derived.items() if _mentions(v, tv, derived)}
-                    if free & ({tv} | tder) and free <= ({tv} | set(derived)):
-                        tests.append((t, lab.startswith("true")))
+                    for t in parts:
+                        free = {n.id for n in ast.walk(t) if isinstance(n, ast.Name)}
+                        if free & ({tv} | tder) and free <= ({tv} | set(derived)):
+                            tests.append((t, pol))
         enabled = set()
         for L in LETTERS + "TX":
             for title in ("~" + L, "~" + L.lower(), "~" + L + "ersion", "~" + L.lower() + " section"):
@@ -1305,6 +1321,12 @@ def rule_line_normalise(ctx):
                     etests.append((node.id, c.left.args[0], c))
             if isinstance(t, ast.Name) and t.id == linevar:
                 etests.append((node.id, t, t))
+            for c in ast.walk(t):
+                # `line and not line.startswith(...)`: truthiness of the line as an operand of and/or
+                if isinstance(c, ast.BoolOp):
+                    for v in c.values:
+                        if isinstance(v, ast.Name) and v.id == linevar:
+                            etests.append((node.id, v, v))
         if not ctests:
             problems.append("comment lines are not skipped")
         if not etests:
